@@ -183,12 +183,16 @@ BASIC_TYPE:
 		t = reflect.TypeOf((*datatype.IPFilterRule)(nil)).Elem()
 	case datatype.IPv4Type:
 		t = reflect.TypeOf((*datatype.IPv4)(nil)).Elem()
+	case datatype.IPv6Type:
+		t = reflect.TypeOf((*datatype.IPv6)(nil)).Elem()
 	case datatype.Integer32Type:
 		t = reflect.TypeOf((*datatype.Integer32)(nil)).Elem()
 	case datatype.Integer64Type:
 		t = reflect.TypeOf((*datatype.Integer64)(nil)).Elem()
 	case datatype.OctetStringType:
 		t = reflect.TypeOf((*datatype.OctetString)(nil)).Elem()
+	case datatype.QoSFilterRuleType:
+		t = reflect.TypeOf((*datatype.QoSFilterRule)(nil)).Elem()
 	case datatype.TimeType:
 		t = reflect.TypeOf((*datatype.Time)(nil)).Elem()
 	case datatype.UTF8StringType:
